@@ -105,7 +105,7 @@ def admOps (l : List XOp) : List Op :=
 def b01 (b : Bool) : String := if b then "1" else "0"
 
 def showRes : Res → String
-  | .ok => "ok" | .sendErr => "sendErr" | .invalidType => "invalidType" | .drainErr => "drainErr"
+  | .ok => "ok" | .sendErr b => s!"sendErr({b})" | .invalidType => "invalidType" | .drainErr => "drainErr"
 def showKind : RKind → String
   | .send => "send" | .drain => "drain" | .bad => "bad"
 def showRet (r : Ret) : String := s!"ret {showKind r.kind} {r.id} {showRes r.res}"
@@ -226,9 +226,22 @@ def parseRets : List String → List (String × Nat × String)
 
 def parseKind? : String → Option RKind
   | "send" => some .send | "drain" => some .drain | "bad" => some .bad | _ => none
-def parseRes? : String → Option Res
-  | "ok" => some .ok | "sendErr" => some .sendErr | "invalidType" => some .invalidType
-  | "drainErr" => some .drainErr | _ => none
+/-- `sendErr(<back>)`: `Err(MessagingErr::SendErr(m))`, `<back>` = the id of the message `m` that the
+real code handed back inside the error -/
+def parseRes? (s : String) : Option Res :=
+  match s with
+  | "ok" => some .ok | "invalidType" => some .invalidType | "drainErr" => some .drainErr
+  | _ =>
+    match s.splitOn "(" with
+    | ["sendErr", rest] =>
+      (match rest.splitOn ")" with
+       | [n, ""] => n.toNat?.map Res.sendErr
+       | _ => none)
+    | _ => none
+
+/-- the result string is a `SendErr` (whatever message it carries) -/
+def isSendErrS (s : String) : Bool :=
+  match parseRes? s with | some (.sendErr _) => true | _ => false
 
 /-- Oracle at the end of a case (all workers finished, the receiver ran until it blocked), on the
 implementation's observations only. The state clauses are `Admission.Obs.violations` — the function
@@ -287,7 +300,10 @@ def oracleStress (withDrain withStop : Bool) (rs : List SRec) (handled : List Na
   let drained := (sup.filter (· == "Terminated:Drained")).length
   (if nodupNat handled then [] else ["handled-twice"]) ++
   (if handled.all (fun i => oks.any (·.id == i)) then [] else ["handled-without-ok"]) ++
-  (if rs.all (fun r => r.res == "ok" || r.res == "sendErr") then [] else ["wrong-return"]) ++
+  (if rs.all (fun r => r.res == "ok" || isSendErrS r.res) then [] else ["wrong-return"]) ++
+  -- C07 (2): a rejected send hands back exactly its own message (`Ret.backBad` on free-running records)
+  (if rs.all (fun r => match parseRes? r.res with | some (.sendErr b) => b == r.id | _ => true) then []
+    else ["handed-back-other-message"]) ++
   (if withStop || oks.all (fun r => handled.contains r.id) then [] else ["ok-not-handled"]) ++
   (if oks.all (fun a => oks.all (fun b =>
       !(a.t1 < b.t0) ||
@@ -296,7 +312,7 @@ def oracleStress (withDrain withStop : Bool) (rs : List SRec) (handled : List Na
          | none, some _ => false
          | _, _ => true))) then [] else ["order"]) ++
   (match drain with
-   | some (_, d1) => if rs.all (fun r => !(d1 < r.t0) || r.res == "sendErr") then [] else ["admitted-after-close"]
+   | some (_, d1) => if rs.all (fun r => !(d1 < r.t0) || isSendErrS r.res) then [] else ["admitted-after-close"]
    | none => []) ++
   (if drained ≤ 1 then [] else ["drained-twice"]) ++
   (if !withDrain || withStop || (drained == 1 && exited) then [] else ["drain-never-finishes"]) ++
